@@ -343,8 +343,10 @@ def snapshot(c):
 CROUTES = ('ctor', 'ctor_raw', 'call', 'set_val', 'set_val_raw', 'setitem', 'equal', 'from_bin', 'from_bin_fn', 'fxp_like')
 
 
-def container_case(acc, cname, make, route):
-    case = {'part': 'B', 'container': cname, 'route': route}
+def container_case(acc, cname, make, route, wf=(16, 4)):
+    """wf: (n_word, n_frac) of the object the container is stored into (no fraction bits: the scaling factor is 1)"""
+    case = {'part': 'B', 'container': cname, 'route': route, 'wf': list(wf)}
+    NW, NF = wf
     c = make()
     before = snapshot(c)
     is_str = cname.startswith(('bin', 'hex', 'dec', 'mixed'))
@@ -360,15 +362,15 @@ def container_case(acc, cname, make, route):
     acc.dim('route', route)
     try:
         if route == 'ctor':
-            x = Fxp(c, True, 16, 4)
+            x = Fxp(c, True, NW, NF)
         elif route == 'ctor_raw':
-            x = Fxp(c, True if not (isinstance(c, np.ndarray) and c.dtype.kind == 'u') else False, 16, 4, raw=True)
+            x = Fxp(c, True if not (isinstance(c, np.ndarray) and c.dtype.kind == 'u') else False, NW, NF, raw=True)
         elif route == 'from_bin_fn':
             x = fx.from_bin(c, signed=True, n_word=16, n_frac=4)
         elif route == 'fxp_like':
-            x = fx.fxp_like(Fxp(None, True, 16, 4), c)
+            x = fx.fxp_like(Fxp(None, True, NW, NF), c)
         else:
-            x = Fxp(np.zeros(shape), True if not (isinstance(c, np.ndarray) and c.dtype.kind == 'u') else False, 16, 4)
+            x = Fxp(np.zeros(shape), True if not (isinstance(c, np.ndarray) and c.dtype.kind == 'u') else False, NW, NF)
             if route == 'call':
                 x(c)
             elif route == 'set_val':
@@ -406,8 +408,22 @@ def container_case(acc, cname, make, route):
             acc.violation('shares_input', case, 'container %s route %s: writing the input array changed the object' % (cname, route),
                           {'part': 'B', 'container': cname, 'route': route})
             return
+        # two objects built from ONE array: an indexed write into the first must reach neither the second nor the array
+        c3 = make()
+        s3 = snapshot(c3)
+        try:
+            xa, xb2 = Fxp(c3, True, NW, NF), Fxp(c3, True, NW, NF)
+            cb = tuple(codes(xb2))
+            xa[(0,) * xa.val.ndim] = 1
+            xa[(-1,) * xa.val.ndim] = 0
+            if tuple(codes(xb2)) != cb or snapshot(c3) != s3:
+                acc.violation('shares_input', case, 'container %s: an indexed write into one of two objects built from the same array changed the %s'
+                              % (cname, 'other object' if tuple(codes(xb2)) != cb else 'array'), {'part': 'B', 'container': cname, 'route': route})
+                return
+        except Exception:
+            pass
         c2 = make()
-        y = Fxp(c2, True, 16, 4) if route != 'ctor_raw' else x
+        y = Fxp(c2, True, NW, NF) if route != 'ctor_raw' else x
         y.set_val(np.zeros(np.shape(c2)))
         if snapshot(c2) != before and route != 'ctor_raw':
             acc.violation('shares_input', case, 'container %s: writing the object changed the input array' % cname,
@@ -581,7 +597,8 @@ def run_shard(sh):
     elif sh['part'] == 'B':
         for cname, make in containers():
             for route in CROUTES:
-                container_case(acc, cname, make, route)
+                for wf in ((16, 4), (16, 0), (64, 0), (8, -1)):
+                    container_case(acc, cname, make, route, wf)
     else:
         validation(acc)
     return acc
@@ -600,7 +617,7 @@ def replay(case):
     if case['part'] == 'B':
         for cname, make in containers():
             if cname == case['container']:
-                container_case(acc, cname, make, case['route'])
+                container_case(acc, cname, make, case['route'], tuple(case.get('wf', (16, 4))))
         return acc.violations
     full = Acc()
     validation(full)
